@@ -212,8 +212,27 @@ pub fn write_dso_debug_stream(
         for (idx, map) in dso_vec.iter().enumerate() {
             let mut filename = String::new();
             if map.l_name > 0 {
-                let filename_data =
-                    PtraceDumper::copy_from_process(blamed_thread, map.l_name, 256)?;
+                // The string may end right before unmapped memory. Only `process_vm_readv`
+                // returns the readable part of a range in that case, the other read strategies
+                // fail; so read up to the next page boundary first, and beyond it only if the
+                // terminator has not been seen yet.
+                const NAME_MAX: usize = 256;
+                const PAGE: usize = 4096;
+                let first_len = std::cmp::min(NAME_MAX, PAGE - map.l_name % PAGE);
+                let mut filename_data =
+                    PtraceDumper::copy_from_process(blamed_thread, map.l_name, first_len)?;
+                if first_len < NAME_MAX
+                    && filename_data.len() == first_len
+                    && !filename_data.contains(&b'\0')
+                {
+                    if let Ok(rest) = PtraceDumper::copy_from_process(
+                        blamed_thread,
+                        map.l_name + first_len,
+                        NAME_MAX - first_len,
+                    ) {
+                        filename_data.extend_from_slice(&rest);
+                    }
+                }
 
                 // C - string is NULL-terminated
                 if let Some(name) = filename_data.splitn(2, |x| *x == b'\0').next() {
